@@ -62,6 +62,12 @@ def make_case(rng, idx, beams, big, synth=None):
            "dict": os.path.join(sut.REPO, "tests", "data", "turtle.dic"), "loglevel": "FATAL", "compallsen": True}
     cfg.update({"open": {"beam": 0, "pbeam": 0, "wbeam": 0}, "default": {},
                 "narrow": {"beam": 1e-20, "wbeam": 1e-10, "pbeam": 1e-20}}[beams])
+    # insertion penalties and language weight other than the defaults (the default phone insertion penalty is 1.0, whose
+    # logarithm is 0: with it a penalty applied in the wrong place or not at all changes nothing)
+    if rng.random() < 0.5:
+        cfg.update({"pip": rng.choice([0.5, 0.05, 2.0]), "wip": rng.choice([0.65, 0.2, 1.0, 0.01])})
+        if rng.random() < 0.4:
+            cfg["lw"] = rng.choice([1.0, 9.5, 3.0])
     r = rng.random()
     if r < 0.6 or (beams == "open" and idx < len(SHAPES)):       # every shape at least once with open beams
         g = SHAPES[idx % len(SHAPES)] if (rng.random() < 0.8 or idx < len(SHAPES)) else rng.choice(SHAPES)
